@@ -298,6 +298,10 @@ func (w *world) frameResult(path string, l *links, store *hg.BadgerStore, f *hg.
 }
 
 func (w *world) frameCase(path string, l *links, store *hg.BadgerStore, f *hg.Frame, ro []string, po []int, tag string) {
+	if path == framePaths[0] {
+		_, ok := frameValidator(f)
+		w.textLine("frame", func(t *tw) { t.frame(f, ro, po) }, ok)
+	}
 	t := &tw{a: w.a}
 	t.tok("C15 F " + path)
 	t.frame(f, ro, po)
@@ -315,7 +319,7 @@ func (w *world) canonCase(f *hg.Frame, ro []string, po []int, tag string) {
 		g.Peers = make([]*peers.Peer, len(f.Peers))
 		for i, p := range f.Peers {
 			if p != nil {
-				g.Peers[i] = peers.NewPeer(p.PubKeyHex, p.NetAddr, p.Moniker)
+				g.Peers[i] = rawPeer(p.PubKeyHex, p.NetAddr, p.Moniker)
 				if len(p.PubKeyHex) > 2 {
 					g.Peers[i].ID() // fills the private id cache
 				}
@@ -400,7 +404,7 @@ func (s *scen) realBlocksAndFrames() {
 			if err != nil {
 				die("block sign: %v", err)
 			}
-			w.a.S(sig.Signature)
+			w.a.G(sig.Signature)
 			b.SetSignature(sig)
 			order = append(order, sig.ValidatorHex())
 		}
@@ -440,10 +444,39 @@ func (s *scen) rewire(b *hg.Block, f *hg.Frame, tag string) {
 		}
 		D := hg.NewHashgraph(hg.NewInmemStore(10000), func(*hg.Block) error { return nil }, quiet)
 		D.Init(peers.NewPeerSet(s.w.validators()))
+		// C15 R case: the frame events as they arrived, in the order Reset inserts them
+		sorted := rf.SortedFrameEvents()
+		rt := &tw{a: s.w.a}
+		rt.tok("C15 R " + path)
+		s.storeTokens(rt, D, nil, nil)
+		rt.tok("|")
+		rt.hdr(false, len(sorted))
+		for _, fe := range sorted {
+			rt.str(fe.Core.Hex())
+			rt.fevent(fe)
+		}
+		rt.tok("=>")
 		if err := D.Reset(rb, rf); err != nil {
 			violation("frame-rejected-after-"+path, tag+" "+err.Error())
 			continue
 		}
+		for _, fe := range sorted {
+			ev, err := D.Store.GetEvent(fe.Core.Hex())
+			if err != nil {
+				rt.tok("MISSING")
+				continue
+			}
+			spi, opc, opi, cid := ev.VerifWireInfo()
+			rt.u32(cid)
+			rt.u32(opc)
+			rt.int(spi)
+			rt.int(opi)
+			rt.int(ev.VerifTopologicalIndex())
+			rt.optint(ev.VerifRound())
+			rt.optint(ev.VerifLamport())
+		}
+		fmt.Fprintln(out, rt.String())
+		s.w.stats["reset:"+path]++
 		bad, n, outside, unordered := 0, 0, 0, 0
 		served := []*hg.Event{}
 		for _, fe := range rf.SortedFrameEvents() {
@@ -521,7 +554,7 @@ func (w *world) looseEvent(rng *rand.Rand, sh evShape, signed bool) *hg.Event {
 	e.Body.Timestamp = int64(rng.Intn(1 << 30))
 	if signed {
 		e.Sign(w.privs[creator])
-		w.a.S(e.Signature)
+		w.a.G(e.Signature)
 		w.a.S(e.Hex())
 	} else {
 		e.Signature = fmt.Sprintf("sig%d", rng.Intn(1000))
@@ -540,11 +573,11 @@ func (w *world) looseEvent(rng *rand.Rand, sh evShape, signed bool) *hg.Event {
 
 func (w *world) fevents(rng *rand.Rand, shape int, strShape int, signed bool) []*hg.FrameEvent {
 	mk := func() *hg.FrameEvent {
-		sh := evProduct[rng.Intn(len(evProduct)-8)]
+		sh := evProduct[rng.Intn(len(evProduct)-10)]
 		e := w.looseEvent(rng, sh, signed)
 		if strShape >= strBadUTF8 {
 			e.Body.InternalTransactions = append(e.Body.InternalTransactions, hg.InternalTransaction{
-				Body: hg.InternalTransactionBody{Peer: *peers.NewPeer(w.phex[4], "a", riskyStr(rng, strShape))}, Signature: "x"})
+				Body: hg.InternalTransactionBody{Peer: *rawPeer(w.phex[4], "a", riskyStr(rng, strShape))}, Signature: "x"})
 		}
 		return &hg.FrameEvent{Core: e, Round: rng.Intn(30), LamportTimestamp: rng.Intn(300), Witness: rng.Intn(2) == 0}
 	}
@@ -717,7 +750,7 @@ func (w *world) synBlock(rng *rand.Rand, i int) (*hg.Block, []string, string) {
 		}
 		for j := 0; j < n; j++ {
 			sig, _ := b.Sign(w.privs[perm[j]])
-			w.a.S(sig.Signature)
+			w.a.G(sig.Signature)
 			b.SetSignature(sig)
 			order = append(order, sig.ValidatorHex())
 		}
@@ -786,18 +819,23 @@ func (w *world) riskyCases(nRisky int) {
 	}
 	type job struct {
 		head, res, viol string
+		n               int
 	}
 	jobs := []*job{}
 	done := make(chan bool)
 	sem := make(chan bool, 6)
+	rejected := map[int]bool{}
 	for n := 0; n < nRisky; n++ {
 		f, ro, po, tag := w.riskyFrame(n)
+		present, ok := frameValidator(f)
+		w.textLine("frame", func(t *tw) { t.frame(f, ro, po) }, ok)
+		rejected[n] = present && !ok
 		for _, path := range framePaths {
 			t := &tw{a: w.a}
 			t.tok("C15 F " + path)
 			t.frame(f, ro, po)
 			t.tok("=>")
-			j := &job{head: t.String()}
+			j := &job{head: t.String(), n: n}
 			jobs = append(jobs, j)
 			w.stats["frame-risky:"+path]++
 			go func(n int, path, tag string) {
@@ -862,7 +900,14 @@ func (w *world) riskyCases(nRisky int) {
 			die("%s", j.res)
 		}
 		if j.viol != "" {
-			violation("frame-hash-hangs", j.viol)
+			if rejected[j.n] {
+				// the raw codec still does not terminate on this text (C15_frame_hash_total_refuted, a fact
+				// about the library), but Frame.ValidateText refuses it before anything hashes it
+				fmt.Fprintf(out, "W C15 raw-codec-hangs-on-refused-text %s\n", j.viol)
+				w.stats["raw-codec-hangs-on-refused-text"]++
+			} else {
+				violation("frame-hash-hangs", j.viol)
+			}
 		}
 		fmt.Fprintln(out, j.head+" "+j.res)
 	}
